@@ -45,7 +45,7 @@ class C12(TalCheck):
     prop = "C12"
     level = "fault_enumeration"
     gen_opts = {"on_error": 0.12, "max_sites": 20, "pipes": 0.3,
-                "prefixes": 0.3, "max_depth": 3, "macros": 0.25}
+                "prefixes": 0.3, "max_depth": 3, "macros": 0.25, "i18n": 0.1}
 
     def gen(self, ch: Choices, tier: str) -> dict:
         g = Gen(ch, self.gen_opts)
